@@ -192,7 +192,7 @@ def handle_results(rep, results, module, cfg, describe, confirm, stage):
             raise Inconclusive(res["error"])
         nrec += res["records"]
     rep.records += nrec
-    seen = set()
+    seen, tried = set(), {}
     for res in results:
         if res["ok"]:
             continue
@@ -206,13 +206,17 @@ def handle_results(rep, results, module, cfg, describe, confirm, stage):
         trace = vlib.trace_of(res["dir"], rec["t"])
         why = res["invariant"] or "action"
         sig, what, payload = describe(res, rec, trace, why)
-        if sig in seen:
+        if sig in seen or tried.get(sig, 0) >= 3:
             continue
-        seen.add(sig)
+        tried[sig] = tried.get(sig, 0) + 1
         payload.update({"property": rep.prop, "stage": stage, "trace_module": module, "trace_cfg": cfg,
                         "rejected_by": why, "rejected_record": rec, "signature": sig})
         if not confirm(payload):
-            raise Inconclusive("rejection did not reproduce in a fresh process (flaky harness?): %s" % what)
+            # not a verdict: left unjudged (the check ends inconclusive unless a reproducible violation is found elsewhere)
+            rep.deferred.append("stage %s: rejection did not reproduce in a fresh process (flaky harness?): %s" % (stage, what))
+            log("UNJUDGED: rejection did not reproduce in a fresh process: %s" % what)
+            continue
+        seen.add(sig)
         k = vlib.known_match(rep.prop, sig)
         if k:
             rep.known.append("%s [%s]" % (k.get("what", sig), sig))
